@@ -189,8 +189,74 @@ def _s_cases():
                            'cwd': 'case' if i % 2 else 'elsewhere'}
 
 
+def _f_cases():
+    """F: what one instruction accepts must not depend on which instructions were read before it, in the same case
+    file - run in a FRESH interpreter, so that nothing read by earlier cases of this worker can mask the order.
+    `cd` and the creating instructions accept the same relativity options but differ in absolute paths (`cd` takes
+    them, a creating argument does not); both orders of the two kinds of instruction, symbols 1 and 4 levels deep."""
+    for first in ('cd', 'create', 'none'):
+        for depth in (1, 4):
+            for instr in ('file', 'dir', 'copy'):
+                yield {'t': 'F', 'first': first, 'depth': depth, 'instr': instr}
+
+
+def run_f(case, ctx):
+    from vf import driver
+    ses = ctx.get_session()
+    d = os.path.realpath(ses.new_case_dir({'src.txt': 'src', 'victim/keep.txt': 'k', 'cdtarget/x.txt': 'x'}))
+    defs = ['def path HERE = -rel-here victim', 'def path CDT = -rel-here cdtarget']
+    x = 'HERE'
+    if case['depth'] == 4:
+        defs += ['def path A = -rel HERE sub', 'def path B = @[A]@/more', 'def path C = @[B]@', 'def path D = -rel C deep']
+        x = 'D'
+    creating = {'file': 'file -rel %s out.txt = "hello"' % x, 'dir': 'dir -rel %s new-dir' % x,
+                'copy': 'copy src.txt -rel %s copied.txt' % x}[case['instr']]
+    body = ['dir work']
+    if case['first'] == 'cd':
+        body += ['cd -rel EXACTLY_ACT work', creating]
+    elif case['first'] == 'create':
+        # a legal creation first, then a `cd` to an absolute path symbol (legal), then the illegal creation
+        body += ['file -rel EXACTLY_ACT legal.txt = "l"', 'cd -rel CDT .', creating]
+    else:
+        body += [creating]
+    text = '[setup]\n' + '\n'.join(defs + body) + '\n[act]\n$ true\n'
+    with open(os.path.join(d, 't.case'), 'w') as f:
+        f.write(text)
+    before = snapshot_tree(d)
+    viol, inconc = [], []
+    try:
+        rc, out, err = driver.run_in_subprocess(['t.case'], d, ses.tmpdir)
+    except Exception as ex:  # subprocess timeout
+        return {'classes': [], 'viol': [], 'inconclusive': ['fresh-interpreter run: %r' % ex]}
+    after = snapshot_tree(d)
+    ctx.count('c12.fresh_interpreter_order_checks')
+    ident = first_line(out)
+    label = 'F %s first, %s through a symbol %d level(s) deep' % (case['first'], case['instr'], case['depth'])
+    if not (rc == 65 and ident == 'VALIDATION_ERROR'):
+        viol.append({'what': 'C12 %s: a creating argument relative to an absolute path symbol must be rejected before '
+                             'execution whatever was read before it, got %s/%r' % (label, ident, rc),
+                     'detail': {'case_text': text, 'stderr': err[:600]}})
+    hd = _diff(before, after)
+    if any(hd.values()):
+        viol.append({'what': 'C12 %s: home directory modified: %r' % (label, hd), 'detail': {'case_text': text}})
+    if case['first'] == 'create' and case['instr'] == 'file' and case['depth'] == 1:
+        # positive control of the legal part (same fresh interpreter conditions): without the illegal line it PASSes
+        with open(os.path.join(d, 'ok.case'), 'w') as f:
+            f.write('[setup]\n' + '\n'.join(defs + body[:-1]) + '\n[act]\n$ true\n')
+        rc2, out2, err2 = driver.run_in_subprocess(['ok.case'], d, ses.tmpdir)
+        if not (rc2 == 0 and first_line(out2) == 'PASS'):
+            viol.append({'what': 'C12 F control: legal creation followed by `cd` to an absolute path symbol must PASS, '
+                                 'got %s/%r' % (first_line(out2), rc2), 'detail': {'stderr': err2[:600]}})
+    ses.clean_tmp()
+    ses.drop(d)
+    return {'classes': [('F', case['first'], case['instr'], case['depth'], ident)], 'viol': viol,
+            'inconclusive': inconc}
+
+
 def cases(tier, seed):
     for c in _s_cases():
+        yield c
+    for c in _f_cases():
         yield c
     n = 0
     # ---------------- R core: depth 1 and 2, exhaustive; R_BATCH independent chains share one test case ----
@@ -433,7 +499,17 @@ def build_r(case, out):
             args.append('@[%s]@' % b)
             items.append((None, b, 'path', (pm.BUILTIN_PATH_SYMBOLS[b], ''), ''))
         if existing:  # reading usage: PATH arguments of another relativity configuration (default: home)
+            # (also with the FILE-NAME being exactly one reference to a STRING symbol: a relative name like any other,
+            # bound to the default relativity of the argument, here the home directory, not to the current directory)
+            if not any(x.startswith('def string SKEEP ') for x in L):
+                L.append('def string SKEEP = keep')
+                L.append('def string SKEEPME = keep/me.txt')
             for txt, loc in (('-existing-dir keep', ('home', 'keep')),
+                             ('-existing-dir @[SKEEP]@', ('home', 'keep')),
+                             ('-existing-file @[SKEEPME]@', ('home', 'keep/me.txt')),
+                             ('-existing-path "@[SKEEP]@"', ('home', 'keep')),
+                             ('-existing-file -rel-act-home @[SKEEPME]@', ('act-home', 'keep/me.txt')),
+                             ('-existing-dir @[SKEEP]@/', ('home', 'keep')),
                              ('-existing-file -rel-act-home keep/me.txt', ('act-home', 'keep/me.txt')),
                              ('-existing-file -rel-home keep/me.txt', ('home', 'keep/me.txt')),
                              ('-existing-dir -rel-act a1', ('act', 'a1')),
@@ -540,7 +616,9 @@ def build_w(case):
     body = []
     cdk = case.get('cd', 0)
     if cdk == 1:
-        body.append('cd -rel-tmp w1')
+        # (the directory given relative to a SYMBOL: `cd` accepts the same relativities as a creating argument, and
+        # absolute paths in addition - the two sets of restrictions must stay apart)
+        body.append('cd -rel EXACTLY_TMP w1' if len(case['chain']) % 2 else 'cd -rel-tmp w1')
         m.cd = ('tmp', 'w1')
     elif cdk == 2:
         body.append('cd a1')
@@ -774,6 +852,8 @@ def run_s(case, ctx):
 def run_case(case, ctx):
     if case['t'] == 'S':
         return run_s(case, ctx)
+    if case['t'] == 'F':
+        return run_f(case, ctx)
     ses = ctx.get_session()
     out = os.path.join(ses.io_dir, 'c12-probe.jsonl')
     try:
